@@ -194,7 +194,7 @@ def main(tier):
         if t == 'exception':
             desc = x['what'][:300] + ' ' + desc
             m = re.search(r'expression: (.*)', x['what'])
-            key = 'assertion:' + re.sub(r'[^A-Za-z0-9_>!=<-]+', '', m.group(1))[:60] if m else 'exception'
+            key = 'assertion:' + re.sub(r'[^A-Za-z0-9_>!=<-]+', '', m.group(1))[:60] if m else (RC.crash_key(x['what']) if x['what'].startswith('process died') else 'exception')
 
         vd.violation(key, t + ': ' + desc, x)
     ev.cov['evaluations'] = len(recs)
